@@ -353,7 +353,34 @@ def replay(pid, path):
     return 0
 
 
+class _QuietPipe:
+    """stdout wrapper: a reader that went away (| head) must not change the verdict"""
+
+    def __init__(self, f):
+        self.f = f
+        self.dead = False
+
+    def write(self, s):
+        if not self.dead:
+            try:
+                return self.f.write(s)
+            except BrokenPipeError:
+                self.dead = True
+        return len(s)
+
+    def flush(self):
+        if not self.dead:
+            try:
+                self.f.flush()
+            except BrokenPipeError:
+                self.dead = True
+
+    def __getattr__(self, n):
+        return getattr(self.f, n)
+
+
 def main(argv):
+    sys.stdout = _QuietPipe(sys.stdout)
     if argv and argv[0] == '--worker':
         _, pid, tier, seed, uf, of = argv
         worker_main(pid, tier, int(seed), uf, of)
@@ -390,4 +417,9 @@ def main(argv):
 
 
 if __name__ == '__main__':
-    sys.exit(main(sys.argv[1:]))
+    rc = main(sys.argv[1:])
+    try:
+        sys.stdout.flush()
+    except Exception:  # noqa
+        pass
+    os._exit(rc) if getattr(sys.stdout, 'dead', False) else sys.exit(rc)
